@@ -164,8 +164,6 @@ void prop_gen(Ctx &c) {
 		SCase cs = *genBase; cs.sh = *genShift;
 		// open finding: a shift that leaves the year before/after (only three per-year candidate sets exist)
 		if (c.excl("shift_two_years") && std::abs(cs.sh.d) + std::abs(cs.sh.b) * 7 / 5 + 4 >= 365) { c.st.excluded["shift_two_years"]++; return; }
-		// open finding: SHIFT on a rule stepping by more than one month / year (the fillers start early or late by single months / years and re-anchor at shifted dates: the INTERVAL phase is lost)
-		if (c.excl("shift_interval") && cs.rule.find("INTERVAL=") != std::string::npos) { c.st.excluded["shift_interval"]++; return; }
 		std::string txt = sctext(cs);
 		std::string m = judge_shift(cs);
 		if (m.compare(0, 9, "baseline:") == 0) { c.st.extra["baseline_failed"]++; RC_DISCARD("baseline"); }
